@@ -98,6 +98,10 @@ func engineSnapshot(lists []filterlist.RuleList, reqs []Req) (string, bool) {
 			}
 			sort.Strings(t)
 			sb.WriteString(strings.Join(t, "\x01") + "\x02")
+			if b, ok := ne.Match(q); ok && b != nil {
+				sb.WriteString("B" + b.RuleText)
+			}
+			sb.WriteString("\x02")
 			host := q.Hostname
 			res, ok := de.MatchRequest(&urlfilter.DNSRequest{Hostname: host, ClientName: r.ClientName, DNSType: r.DNSType, SortedClientTags: r.Tags})
 			if res != nil {
@@ -164,6 +168,27 @@ func init() {
 					l = strings.NewReplacer("\n", "", "\r", "").Replace(l)
 					lines = append(lines, l)
 					mask = append(mask, '0')
+				}
+				if g.Chance(1, 3) {
+					// a rule and a $badfilter rule that is its twin except for ONE more modifier (each side may lack what the
+					// other carries): building results compares the two field by field
+					h := Pick(g, hostPool)
+					pat := Pick(g, []string{"||" + h + "^", "@@||" + h + "^", "||" + h + "^$important", "||" + h + "^$dnstype=A"})
+					extra := Pick(g, []string{"client=~10.0.0.1", "client=Mom", "client=10.0.0.0/8", "ctag=~device_pc", "ctag=device_tv", "dnstype=~MX", "denyallow=x.com", "domain=~x.org", "dnsrewrite=1.2.3.4"})
+					twin := pat + "$" + extra + ",badfilter"
+					if strings.Contains(pat, "$") {
+						twin = pat + "," + extra + ",badfilter"
+					}
+					pair := []string{pat, twin}
+					if g.Bool() {
+						// the other asymmetry: the plain rule carries the modifier, the badfilter rule does not
+						pair = []string{strings.TrimSuffix(twin, ",badfilter"), withBadfilter(pat)}
+					}
+					for _, t := range pair {
+						at := g.Intn(len(lines) + 1)
+						lines = append(lines[:at], append([]string{t}, lines[at:]...)...)
+						mask = append(mask[:at], append([]byte{'0'}, mask[at:]...)...)
+					}
 				}
 				var rs []string
 				for j := 0; j < 6; j++ {
